@@ -1,23 +1,35 @@
 //@@ include ../common/prelude.rs
 // Unit `rte` — property C11, the link between the order `routes.sort()` uses and the verified order on rules: Route<T>'s PartialEq / PartialOrd / Ord
 // delegate to the handler's (for T = api::Rule: the comparison functions verified in unit `act` against rank-descending-then-id-descending).
+// The trait impls are kept as trait impls (so `==` / `<` on routes inside them keep their meaning); what each must compute is stated through vstd's
+// *SpecImpl traits: Verus checks every impl body against `obeys_*_spec() ==> result == *_spec(self, other)`.
 use std::cmp::Ordering;
 use vstd::std_specs::cmp::*;
 verus! {
 // the fields of the real struct that are plain data (the matcher-specific ones — host / path patterns, header, ip, date-time triggers — are foreign to this unit and dropped)
 pub struct Route<T> { pub handler: T, pub scheme: Option<String>, pub methods: Option<Vec<String>>, pub exclude_methods: Option<bool>, pub id: String, pub priority: i64 }
-// R7: the trait impls are verified as inherent methods (std's sort reaches them through the traits: listed assumption)
-impl<T: PartialEq> Route<T> {
-    //@@ fn src/router/route.rs :: impl <T>PartialEqforRoute<T>whereT:PartialEq, / fn eq -> r
-    //@| ensures T::obeys_eq_spec() ==> r == self.handler.eq_spec(&other.handler),
+// statement (C11): rules are applied by descending rank, ties broken by id — the order on routes IS the order on their rules
+impl<T: PartialEq> PartialEqSpecImpl for Route<T> {
+    open spec fn obeys_eq_spec() -> bool { T::obeys_eq_spec() }
+    open spec fn eq_spec(&self, other: &Self) -> bool { self.handler.eq_spec(&other.handler) }
 }
-impl<T: PartialOrd> Route<T> {
-    //@@ fn src/router/route.rs :: impl <T>PartialOrdforRoute<T>whereT:PartialOrd, / fn partial_cmp -> r
-    //@| ensures T::obeys_partial_cmp_spec() ==> r == self.handler.partial_cmp_spec(&other.handler),
+impl<T: PartialOrd> PartialOrdSpecImpl for Route<T> {
+    open spec fn obeys_partial_cmp_spec() -> bool { T::obeys_partial_cmp_spec() }
+    open spec fn partial_cmp_spec(&self, other: &Self) -> Option<Ordering> { self.handler.partial_cmp_spec(&other.handler) }
 }
-impl<T: Ord> Route<T> {
-    //@@ fn src/router/route.rs :: impl <T>OrdforRoute<T>whereT:Ord, / fn cmp -> r
-    //@| ensures T::obeys_cmp_spec() ==> r == self.handler.cmp_spec(&other.handler),
+impl<T: Ord> OrdSpecImpl for Route<T> {
+    open spec fn obeys_cmp_spec() -> bool { T::obeys_cmp_spec() }
+    open spec fn cmp_spec(&self, other: &Self) -> Ordering { self.handler.cmp_spec(&other.handler) }
+}
+impl<T: PartialEq> PartialEq for Route<T> {
+    //@@ fn src/router/route.rs :: impl <T> PartialEq for Route<T> where T: PartialEq, / fn eq
+}
+impl<T: PartialEq> Eq for Route<T> {}
+impl<T: PartialOrd> PartialOrd for Route<T> {
+    //@@ fn src/router/route.rs :: impl <T> PartialOrd for Route<T> where T: PartialOrd, / fn partial_cmp
+}
+impl<T: Ord> Ord for Route<T> {
+    //@@ fn src/router/route.rs :: impl <T> Ord for Route<T> where T: Ord, / fn cmp
 }
 } // verus!
 fn main() {}
